@@ -23,6 +23,7 @@ func retryCheck(r *vrt.Result) string {
 	var calls []*call
 	var rands [][2]int64
 	var cancelledAt int64
+	cancelClock := -1
 	ret, retErr := "", ""
 	retClock := 0
 	var retAt int64
@@ -40,6 +41,9 @@ func retryCheck(r *vrt.Result) string {
 		case "cancelled":
 			if cancelledAt == 0 {
 				cancelledAt = e.Seq
+				if len(e.Args) > 0 {
+					cancelClock = e.Int(0)
+				}
 			}
 			if len(calls) > 0 && calls[len(calls)-1].outcome == "" {
 				calls[len(calls)-1].cancelIn = true
@@ -103,6 +107,9 @@ func retryCheck(r *vrt.Result) string {
 		if ret != "<nil>" || retErr != "context canceled" {
 			return "wrong-result: after cancellation (nil result and the context's error expected):" + hist
 		}
+		if cancelClock >= 0 && r.EarlyFires == 0 && retClock > cancelClock && retAt > cancelledAt {
+			return fmt.Sprintf("wait-not-cut-short: returned %v of virtual time after the context was cancelled:%s", time.Duration(retClock-cancelClock), hist)
+		}
 	}
 	// back-off: the k-th retry requests 2^min(k,31) slots; the wait is answer x rate
 	nRetries := n - 1
@@ -128,7 +135,6 @@ func retryCheck(r *vrt.Result) string {
 			}
 		}
 	}
-	_ = retClock
 	return ""
 }
 
@@ -227,6 +233,16 @@ func attemptCheck(r *vrt.Result) string {
 			if at > cancelledAt {
 				after++
 			}
+		}
+		// a tick stamped later than the cancellation was necessarily forwarded after it
+		lateTicks := 0
+		for i, t := range recvT {
+			if i > 0 && t-recvT[0] > cancelledClock {
+				lateTicks++
+			}
+		}
+		if cmode == 2 && lateTicks > 1 {
+			return fmt.Sprintf("ticks-after-cancel: %d ticks were forwarded after the context was cancelled (at most one allowed)", lateTicks)
 		}
 		if after > 2 {
 			return fmt.Sprintf("after-cancel: %d values received after cancellation (at most one buffered and one in flight)", after)
